@@ -26,4 +26,8 @@ ConfsC == {Chain3, Cycle3}
 ConfsE == {BothEnd(2), BothEnd(3)}
 ConfsI == {Indep2, Indep3, IndepEnd(2)}
 ConfsOne == {OneWay}
+OneEnd(t) == C(<<1, 2>>, 2, {<<1, 2>>}, t)
+\* quick tier: everything that shares one set of bounds, in one TLC run
+ConfsQ == {OneWay, BothWays, OneEnd(2), Indep2, Indep3, IndepEnd(2)}
+ConfsT == {OneWay, BothWays, BothEnd(2), BothEnd(3), Indep2, Indep3, IndepEnd(2)}
 =============================================================================
